@@ -852,7 +852,56 @@ def lemmas(tier, src):
                    ("lemma/len_flags_word", l5), ("lemma/Avp.length", l6)):
         out.append(L.guarded(lid, b))
     out.append(L.guarded("lemma/lookup==spec", _lookup_lemma))
+    out.append(_lookup_enumeration())
     return out
+
+
+def lookup_enum_probe(code: int, vendor: int) -> bool:
+    """concrete replay of one cell of the lookup cross product"""
+    hx.begin()
+    from diameter.message.avp import dictionary as D
+    e = A.get_avp_dictionary_entry(code, vendor)
+    if vendor == 0:
+        exp = D.AVP_DICTIONARY.get(code)
+    else:
+        exp = D.AVP_VENDOR_DICTIONARY.get(vendor, {}).get(code)
+    return hx.check((code, vendor), (None if e is None else e.get("name"),), (None if exp is None else exp.get("name"),), "dictionary lookup vs. the tables")
+
+
+def _lookup_enumeration():
+    """the real lookup on the cross product (all known codes + unknown ones) x (all known vendors + 0 + unknown + an empty vendor table):
+    a finite table, enumerated (not solved); the lemma above is the solver-side statement over all table contents"""
+    import time as _t
+    from engine import codec
+    from diameter.message.avp import dictionary as D
+    t0 = _t.perf_counter()
+    codes = set(D.AVP_DICTIONARY)
+    for v, tbl in D.AVP_VENDOR_DICTIONARY.items():
+        codes |= set(tbl)
+    codes |= {0, 0xfffffff0, 0xffffffff}
+    vendors = set(D.AVP_VENDOR_DICTIONARY) | {0, 1, 0x7fffffff, 0xffffffff}
+    bad = None
+    n = 0
+    for v in vendors:
+        tbl = D.AVP_DICTIONARY if v == 0 else D.AVP_VENDOR_DICTIONARY.get(v, {})
+        for cd in codes:
+            n += 1
+            try:
+                e = A.get_avp_dictionary_entry(cd, v)
+            except Exception as ex:
+                e = ex
+            if e is not tbl.get(cd):
+                bad = (cd, v)
+                break
+        if bad:
+            break
+    res = {"id": "table/lookup_cross_product", "solver_checks": 0, "solver_time_s": 0,
+           "detail": "finite table: enumerated, not solved (%d (code, vendor) cells, %d vendors incl. 0, unknown ones and empty tables; %.1f s)" % (n, len(vendors), _t.perf_counter() - t0),
+           "verdict": "discharged" if bad is None else "refuted"}
+    if bad:
+        res["model"] = {"code": bad[0], "vendor": bad[1]}
+        res["replay"] = {"fn": "lookup_enum_probe", "args": codec.enc(bad)}
+    return res
 
 
 def _lookup_lemma():
